@@ -14,7 +14,7 @@ use std::rc::Rc;
 pub static ENGINE: Engine = Engine {
     prop: "C04",
     level: "exploration",
-    rule: "every function f over k ordered variables with gaps (k=3: 256, also as diagrams never interned in the operating environment; k=4: 65536; operands are interned canonical diagrams) x every variable list V of length <= 3 (with repeats) over the support variables plus variables above, between and below the support x {exists, all, exists_impl}: truth table of the result = brute-force quantification; no node of the result tests a member of V; result identical (==) for every reordering / de-duplication of V (compared with the sorted duplicate-free list); V empty or disjoint from the support => result == f; all(V,f) == not(exists(V,not f)). Text level: the language's quantifier node on every function of 2 and 3 named variables x every list <= 3 through the real evaluator; every AST <= N nodes over a quantifier alphabet (lists incl. empty, repeated, trailing comma, any/all spellings, names reused bound and free, quantifiers inside lfp/gfp bodies) through the real parser+evaluator vs the reference. distinct = distinct (f, V, operation) + distinct formula texts",
+    rule: "every function f over k ordered variables with gaps (k=3: 256, also as diagrams never interned in the operating environment; k=4: 65536; operands are interned canonical diagrams) x every variable list V of length <= 3 (with repeats) over the support variables plus variables above, between and below the support x {exists, all, exists_impl}: truth table of the result = brute-force quantification; no node of the result tests a member of V; result identical (==) for every reordering / de-duplication of V (compared with the sorted duplicate-free list); V empty or disjoint from the support => result == f; all(V,f) == not(exists(V,not f)). A 185-member family over 6 variables x every permutation of the six variables and every 4- and 5-subset in three orders. Text level: the language's quantifier node on every function of 2 and 3 named variables x every list <= 3 through the real evaluator; every AST <= N nodes over a quantifier alphabet (lists incl. empty, repeated, trailing comma, any/all spellings, names reused bound and free, quantifiers inside lfp/gfp bodies) through the real parser+evaluator vs the reference. distinct = distinct (f, V, operation) + distinct formula texts",
     assumptions: &["truth tables by an independent walker; reference quantification by cofactor enumeration", "k <= 4 variables, |V| <= 3, AST size bound"],
     max_shards: 64,
     run,
@@ -136,6 +136,69 @@ fn api_sweep(ctx: &mut Ctx, k: usize, maxlen: usize, foreign: bool) {
     }
 }
 
+
+/// longer lists and deeper diagrams than the complete sweeps reach: the 185-member family
+/// over 6 variables x every permutation of all six variables, and every 5- and 4-subset in
+/// ascending, descending and rotated order
+fn long_lists(ctx: &mut Ctx) {
+    let syms = [1usize, 4, 6, 9, 12, 20];
+    let sp = Space::<usize>::empty(&syms);
+    let fam = crate::closure::family6();
+    let hs: Vec<H> = fam.iter().map(|t| sp.intern(&sp.canon(*t))).collect();
+    let mut lists: Vec<Vec<usize>> = crate::enumerate::permutations(6);
+    for mask in 0..64usize {
+        let sub: Vec<usize> = (0..6).filter(|i| mask & (1 << i) != 0).collect();
+        if sub.len() == 5 || sub.len() == 4 {
+            let mut d = sub.clone();
+            d.reverse();
+            let mut r = sub.clone();
+            r.rotate_left(2);
+            lists.push(sub);
+            lists.push(d);
+            lists.push(r);
+        }
+    }
+    let env = sp.env.clone();
+    let mut idx = 0u64;
+    for (fi, f) in hs.iter().enumerate() {
+        for l in &lists {
+            idx += 1;
+            if !ctx.mine(idx) {
+                continue;
+            }
+            let vs: Vec<usize> = l.iter().map(|i| syms[*i]).collect();
+            let c = json!({"part": "long", "f": fi, "vars": vs});
+            ctx.begin_case(|| c.clone());
+            ctx.count("evaluations", 1);
+            ctx.count("long_list_cases", 1);
+            ctx.count("distinct_by_construction", 1);
+            let mut we = fam[fi];
+            let mut wa = fam[fi];
+            for i in l {
+                we = exists_tt(6, *i, we);
+                wa = forall_tt(6, *i, wa);
+            }
+            let key = format!("{TAG} api 6 variables: f={:#x} V={:?}", fam[fi], vs);
+            match guarded(|| (env.exists(vs.clone(), f.clone()), env.all(vs.clone(), f.clone()))) {
+                Err(p) => ctx.violation(key, format!("quantification panicked: {p}"), c),
+                Ok((e, a)) => {
+                    let mut cs = vec![];
+                    for (name, h, w) in [("exists", &e, we), ("all", &a, wa)] {
+                        match sp.tt(h) {
+                            Err(m) => cs.push(m),
+                            Ok(t) if t != w => cs.push(format!("{name} denotes {t:#x}, brute-force quantification gives {w:#x}")),
+                            _ => {}
+                        }
+                    }
+                    if !cs.is_empty() {
+                        ctx.violation(key, cs.join("; "), c);
+                    }
+                }
+            }
+        }
+    }
+}
+
 fn quant_alpha() -> Alpha {
     let s = |x: &str| x.to_string();
     let mut quants = vec![];
@@ -211,6 +274,7 @@ fn evaluator_sweep(ctx: &mut Ctx) {
 
 fn run(ctx: &mut Ctx) {
     evaluator_sweep(ctx);
+    long_lists(ctx);
     api_sweep(ctx, 3, 3, false);
     api_sweep(ctx, 3, 3, true);
     // quick: F_4 with lists <= 2; thorough: lists <= 3
@@ -221,6 +285,16 @@ fn run(ctx: &mut Ctx) {
 fn replay(ctx: &mut Ctx, c: &Value) {
     if c["part"].as_str() == Some("text") {
         replay_text(ctx, TAG, c);
+        return;
+    }
+    if c["part"].as_str() == Some("long") {
+        let mut c2 = Ctx::new("C04", ctx.tier, ctx.seed, 0, 1);
+        long_lists(&mut c2);
+        for v in c2.violations {
+            if v.replay == *c {
+                ctx.violation(v.key, v.what, v.replay);
+            }
+        }
         return;
     }
     if matches!(c["part"].as_str(), Some("eval-node") | Some("eval-init")) {
